@@ -142,10 +142,14 @@ static size_t stub_nfc(int tag, const char* str, polyseed_str norm) {
     /* a conforming normaliser may write its output buffer before it has finished reading its input (nothing in the
      * header promises that str and norm may alias): the whole buffer is clobbered first */
     if (!((const char*)norm + POLYSEED_STR_SIZE <= str || str + inlen + 1 <= (const char*)norm)) w->aliased_norm_calls++;
-    if (!w->norm_gentle) memset(norm, 0xDD, POLYSEED_STR_SIZE); else norm[0] = (char)0xDD;
+    char* stash = NULL;
+    if (!w->norm_gentle) memset(norm, 0xDD, POLYSEED_STR_SIZE);
+    else if (w->norm_gentle == 2) { stash = strdup(str); }       /* a converter that works in place: the output buffer first receives a copy of the input (as much as fits) ... */
+    else norm[0] = (char)0xDD;
     size_t n;
     if (w->norm_invalid_empty && !pv_utf8_valid(str)) { norm[0] = 0; n = 0; }
     else n = pv_dep_nfc(str, norm);
+    if (stash) { size_t sl = strlen(stash); if (sl > POLYSEED_STR_SIZE - 1) sl = POLYSEED_STR_SIZE - 1; if (sl > n + 1) memcpy(norm + n + 1, stash + n + 1, sl - n - 1); free(stash); }   /* ... and what the shorter result does not overwrite stays behind its terminator */
     if (e) { e->ptr = str; e->len = inlen; e->b = n; }
     STUB_LEAVE;
     return n;
@@ -156,10 +160,14 @@ static size_t stub_nfkd(int tag, const char* str, polyseed_str norm) {
     pv_msan_probe_str(str, POLYSEED_STR_SIZE * 4, "string given to the NFKD dependency");
     size_t inlen = strlen(str);
     if (!((const char*)norm + POLYSEED_STR_SIZE <= str || str + inlen + 1 <= (const char*)norm)) w->aliased_norm_calls++;
-    if (!w->norm_gentle) memset(norm, 0xDD, POLYSEED_STR_SIZE); else norm[0] = (char)0xDD;
+    char* stash = NULL;
+    if (!w->norm_gentle) memset(norm, 0xDD, POLYSEED_STR_SIZE);
+    else if (w->norm_gentle == 2) { stash = strdup(str); }       /* a converter that works in place: the output buffer first receives a copy of the input (as much as fits) ... */
+    else norm[0] = (char)0xDD;
     size_t n;
     if (w->norm_invalid_empty && !pv_utf8_valid(str)) { norm[0] = 0; n = 0; }
     else n = pv_dep_nfkd(str, norm);
+    if (stash) { size_t sl = strlen(stash); if (sl > POLYSEED_STR_SIZE - 1) sl = POLYSEED_STR_SIZE - 1; if (sl > n + 1) memcpy(norm + n + 1, stash + n + 1, sl - n - 1); free(stash); }   /* ... and what the shorter result does not overwrite stays behind its terminator */
     if (e) { e->ptr = str; e->len = inlen; e->b = n; }
     STUB_LEAVE;
     return n;
